@@ -65,3 +65,48 @@ contract(
               "TaskScenario._selectedResources@self", "TaskScenario.slotStartOffset@self",
               "Limit._dirty", "Limit._scoreboard", "$region:Limit._scoreboard"],
 )
+
+
+# ---- C12: every parse starts from an empty macro table of its own ------------------------------------------------------
+MP = "scriptplan/parser/macro_processor.py"
+fields_of("MacroProcessor", _macros=Dict(Str, Str), _project_start=Opt(Str), _project_end=Opt(Str), _now=Opt(Str))
+contract(
+    MP + "::MacroProcessor.__init__", props=["C12"],
+    params={"self": Ref("MacroProcessor")},
+    ensures=[
+        # no definition survives from an earlier text: the table is a newly allocated, empty dict
+        ("own-table", "isfresh(self._macros)"),
+        ("empty", "forall(k, 'Str', not (k in self._macros))"),
+        ("no-dates", "self._project_start is None and self._project_end is None and self._now is None"),
+    ],
+    modifies=["MacroProcessor._macros@self", "MacroProcessor._project_start@self", "MacroProcessor._project_end@self",
+              "MacroProcessor._now@self"],
+)
+
+# ---- C05: a declared limit (hours) is converted to whole slots by rounding DOWN -----------------------------------------
+_LAST = "self._limits[len(self._limits) - 1]"
+contract(
+    LM + "::Limits.setLimit", props=["C05"],
+    params={"self": Ref("Limits"), "name": Str, "value": Real, "interval": Opt(Tuple(DT, DT)), "resource": Opt(Str)},
+    defaults={"interval": None, "resource": None},
+    requires=[("project", "self.project is not None and PG(some(self.project)) >= 1 and some(self.project).attributes['start'] is not None "
+                          "and some(self.project).attributes['end'] is not None and "
+                          "PStart(some(self.project)) <= some(some(self.project).attributes['end'])"),
+              ("value", "value >= 0"),
+              ("interval", "implies(interval is not None, some(interval)[0] <= some(interval)[1])"),
+              ("known", "name == 'dailymax' or name == 'weeklymax' or name == 'dailymin' or name == 'weeklymin' or "
+                        "name == 'monthlymax' or name == 'monthlymin'")],
+    ensures=[
+        ("added", f"len(self._limits) >= 1 and isfresh({_LAST}) and {_LAST}.name == name and {_LAST}.resource == resource"),
+        # the enforced number of slots never stands for more time than the declared hours, and for less than one slot less
+        ("never-more", f"{_LAST}.value * {_LAST}.slot_duration <= value * 3600"),
+        ("at-most-one-slot-less", f"({_LAST}.value + 1) * {_LAST}.slot_duration > value * 3600"),
+        ("period", f"{_LAST}.period == ite(name == 'dailymax' or name == 'dailymin', 86400, "
+                   f"ite(name == 'weeklymax' or name == 'weeklymin', 604800, 2592000))"),
+        ("kind", f"{_LAST}.upper == (name == 'dailymax' or name == 'weeklymax' or name == 'monthlymax')"),
+        ("slot", f"{_LAST}.slot_duration == PG(some(self.project))"),
+    ],
+    calls={"Limit": ("construct", "Limit", LM + "::Limit.__init__")},
+    locals={"interval_start": DT, "interval_end": DT, "period": Real, "upper": Bool},
+    modifies=["Limits._limits@self"],
+)
